@@ -89,6 +89,7 @@ def gen_cases(tier):
         yield ('vcard', first, n)
     yield ('pairs', tier)
     yield ('multi',)
+    yield ('long',)
     yield ('geo',)
     yield ('mailto',)
     yield ('epc',)
@@ -209,11 +210,12 @@ def vcard_one(kw, acc, symbol=False):
             if v:
                 names += [multi[f]] * (1 if isinstance(v, str) else len(v))
     names.append('END')
-    lines = d.split('\r\n')
     problems = []
-    if lines[-1] != '':
+    if not d.endswith('\r\n'):
         problems.append('payload does not end with CRLF')
-    lines = lines[:-1]
+    # RFC 2426 unfolding: a CRLF immediately followed by one white space continues the content line
+    unfolded = re.sub('\r\n[ \t]', '', d)
+    lines = unfolded.split('\r\n')[:-1]
     if any('\r' in ln or '\n' in ln for ln in lines):
         problems.append('bare CR or LF inside a content line')
     got = [ln.split(':', 1)[0] for ln in lines]
@@ -221,6 +223,18 @@ def vcard_one(kw, acc, symbol=False):
         problems.append('content lines %r, one line per supplied value would be %r' % (got, names))
     if lines[:2] != ['BEGIN:VCARD', 'VERSION:3.0'] or lines[-1:] != ['END:VCARD']:
         problems.append('BEGIN/VERSION/END frame')
+    # single-valued text fields: the value must come back after removing the escapes (CR dropped, LF as \\n)
+    if got == names:
+        def unesc(v):
+            return re.sub(r'\\(.)', lambda m: '\n' if m.group(1) in 'nN' else m.group(1), v, flags=re.S)
+        for f, prop in (('displayname', 'FN'), ('org', 'ORG'), ('nickname', 'NICKNAME'), ('source', 'SOURCE'), ('memo', 'NOTE')):
+            v = kw.get(f)
+            # (values containing a backslash are not compared: segno does not escape it and RFC 2426 readers differ on a lone backslash -
+            #  the statement only fixes the line structure; value recovery is checked where it is unambiguous)
+            if isinstance(v, str) and v and '\\' not in v:
+                vals = [ln.split(':', 1)[1] for ln in lines if ln.split(':', 1)[0] == prop]
+                if len(vals) != 1 or unesc(vals[0]) != v.replace('\r', ''):
+                    problems.append('%s value %r does not come back from %r' % (prop, v[:40], vals[:1]))
     acc.eval(case, nontrivial=True, outcome=not problems, state=('vcard', tuple(sorted(kw))))
     acc.count('payloads')
     if problems:
@@ -260,6 +274,15 @@ def run_case(case, acc):
                 kw = {'name': 'Doe;John', 'displayname': 'JD'}
                 kw[f] = s
                 vcard_one(kw, acc, symbol=sym and f in ('memo', 'displayname'))
+    elif kind == 'long':
+        for n in (70, 76, 80, 149, 150, 151, 230, 400):
+            for base in ('abcdefghij', 'ab,c;d:e', 'a b'):
+                v = (base * 50)[:n]
+                for f in ('displayname', 'org', 'memo', 'nickname', 'source'):
+                    vcard_one({'name': 'Doe;John', 'displayname': 'JD', f: v}, acc, symbol=(f == 'memo'))
+                for f in ('name', 'memo', 'reading'):
+                    mecard_one({'name': 'N', f: v}, acc, symbol=(f == 'memo'))
+                wifi_one(v[:32], v, 'WPA', False, acc, symbol=True)
     elif kind == 'pairs':
         vals = list(strings(2))
         for a in vals:
@@ -518,7 +541,11 @@ def epc_case(acc):
         epc_one(kw, acc)
     for extra in (dict(bic='BFSWDE33BER'), dict(bic='BFSWDE33'), dict(purpose='CHAR'), dict(text=None, reference='RF18539007547034'),
                   dict(bic=' BFSWDE33 ', name='  padded  ', text='trailing   '), dict(text='x' * 140), dict(name='n' * 70), dict(iban='I' * 34),
-                  dict(iban='ABCDE'), dict(text=None, reference='R' * 35), dict(text='€' * 60)):
+                  dict(iban='ABCDE'), dict(text=None, reference='R' * 35), dict(text='€' * 60),
+                  # characters outside ISO-8859-1 in the fields other than name / text (the character set must cover the whole payload)
+                  dict(text=None, reference='Rechnung \u2116 5'), dict(purpose='\u0391\u0392\u0393\u0394'), dict(bic='\u0141\u00d3D\u0179PLPW'),
+                  dict(name='\u041f\u0451\u0442\u0440', purpose='\u0391\u0392\u0393\u0394'), dict(iban='DE33\u20ac00205000001194700'),
+                  dict(name='\u0141\u00f3d\u017a', text=None, reference='\u03b3\u03b5\u03b9\u03ac')):
         kw = dict(BASE)
         kw.update(extra)
         epc_one(kw, acc)
